@@ -129,7 +129,11 @@ def write_summary():
         for r in rows:
             f.write("| " + " | ".join(r) + " |\n")
     caught = sum(1 for r in rows if r[2] != "MISSED" and r[1] == "yes")
-    print(f"SEEDED.md: {len(rows)} changes, {sum(1 for r in rows if r[1] == 'yes')} confirmed, {caught} of the confirmed ones caught")
+    neighbour = sum(1 for r in rows if r[2] == "MISSED" and r[3] and r[1] == "yes")
+    with open(os.path.join(HERE, "SEEDED.md"), "a") as f:
+        f.write(f"\n{len(rows)} changes, {sum(1 for r in rows if r[1] == 'yes')} confirmed; {caught} caught by the check of the property they were written against, "
+                f"{neighbour} more only by the check of a neighbouring property (column 'also caught by'), {len(rows) - caught - neighbour} not caught (see DESIGN.md 8.3 for why).\n")
+    print(f"SEEDED.md: {len(rows)} changes, {sum(1 for r in rows if r[1] == 'yes')} confirmed, {caught} caught by own property, {neighbour} by a neighbour only")
 
 
 def main():
